@@ -1,4 +1,4 @@
 From Coq Require Import Extraction ExtrOcamlBasic.
-From MW Require Import C05.Heap.
+From MW Require Import C05.Heap C05.Refs.
 Extraction "../ocaml/c05/c05_model.ml" wfb contractb words cwords table_dims
-  append_child replace_child remove_child move_to copy get kids par clsof.
+  append_child replace_child remove_child move_to copy get kids par clsof handover.
